@@ -16,8 +16,40 @@ import (
 // declared once, type-checked with go/types, and both pasted into generated
 // programs and rendered as constant tables (WorldTable.tla).
 
+// WorldDeepSrc is a package the setup file never imports itself: its types are
+// reached only through members of wext types (import path <module>/wdeep).
+const WorldDeepSrc = `package wdeep
+
+// TS and TD are nested source / destination types with an unexported member.
+type TS struct {
+	V int
+	w int
+}
+
+type TD struct {
+	V int
+	U bool
+	w int
+}
+
+func (t TS) w2() int { return t.w }
+`
+
 // WorldExtSrc is the imported package (import path <module>/wext).
 const WorldExtSrc = `package wext
+
+import "%MOD%/wdeep"
+
+// HoldS and HoldD hold members of types from a package the setup file does not import.
+type HoldS struct {
+	In wdeep.TS
+	K  int
+}
+
+type HoldD struct {
+	In wdeep.TD
+	K  int
+}
 
 // XIn is an imported struct with an unexported member.
 type XIn struct {
@@ -90,6 +122,9 @@ type SrcA struct {
 	W WInt
 	L []int
 	u int
+	c int
+	H wext.HoldS
+	Q wdeep.TS
 }
 
 func (s SrcA) Gi() int          { return s.A }
@@ -130,8 +165,17 @@ type DstC struct {
 	E Empty
 }
 
+// QOut is a local struct whose unexported member has the same name as an
+// unexported (hence invisible) member of the imported source type.
+type QOut struct {
+	V int
+	w int
+}
+
 type DstD struct {
 	A int
+	Q QOut
+	H wext.HoldD
 	wext.XEmb
 	X wext.XIn
 	I struct {
@@ -173,20 +217,28 @@ type WorldChecked struct {
 // CheckWorld type-checks the note world.
 func CheckWorld() (*WorldChecked, error) {
 	fset := token.NewFileSet()
-	fe, err := parser.ParseFile(fset, "wext.go", WorldExtSrc, 0)
+	fd, err := parser.ParseFile(fset, "wdeep.go", WorldDeepSrc, 0)
 	if err != nil {
 		return nil, err
 	}
-	ext, err := (&types.Config{}).Check("w/wext", fset, []*ast.File{fe}, nil)
+	deep, err := (&types.Config{}).Check("w/wdeep", fset, []*ast.File{fd}, nil)
 	if err != nil {
 		return nil, err
 	}
-	src := "package w\n\nimport \"w/wext\"\n" + WorldLocalSrc
+	fe, err := parser.ParseFile(fset, "wext.go", strings.ReplaceAll(WorldExtSrc, "%MOD%", "w"), 0)
+	if err != nil {
+		return nil, err
+	}
+	ext, err := (&types.Config{Importer: mapImporter{map[string]*types.Package{"w/wdeep": deep}}}).Check("w/wext", fset, []*ast.File{fe}, nil)
+	if err != nil {
+		return nil, err
+	}
+	src := "package w\n\nimport (\n\t\"w/wdeep\"\n\t\"w/wext\"\n)\n" + WorldLocalSrc
 	fu, err := parser.ParseFile(fset, "w.go", src, 0)
 	if err != nil {
 		return nil, err
 	}
-	pkg, err := (&types.Config{Importer: mapImporter{map[string]*types.Package{"w/wext": ext}}}).Check("w", fset, []*ast.File{fu}, nil)
+	pkg, err := (&types.Config{Importer: mapImporter{map[string]*types.Package{"w/wext": ext, "w/wdeep": deep}}}).Check("w", fset, []*ast.File{fu}, nil)
 	if err != nil {
 		return nil, err
 	}
